@@ -445,6 +445,7 @@ class Driver(object):
         self.conc_seed = conc_seed
         self.shadow = False
         self.vary_threads = True
+        self.check_default_lookup = False
         self.in_opts = [dict(o) for o in consts.get('FreeOptsList', [])]
         self.out_opts = [dict(o) for o in consts.get('FreeOutOptsList', [])]
         self.world_tokens = {tuple(k): tuple(v) for k, v in consts['WorldMap'].items()}
@@ -580,6 +581,10 @@ class Driver(object):
     def run(self, beh):
         out = []
         self.conc = Concretisation(self.conc_seed, prefer_mutable=(self.conc_seed % 2 == 1))
+        # reserve the special values so that no value token is concretised to something equal to them
+        self.conc.map['__subst_value'] = ('substitute', 1)
+        self.conc.map['__subst_falsy'] = FALSY[self.conc_seed % len(FALSY)]
+        self.conc.map['__default'] = ('default-result',)
         self.world = World(self.conc, self.world_tokens)
         inner = self.cassette_factory()
         self.inner = inner
@@ -845,6 +850,8 @@ class Driver(object):
                         self._mm(out, 'store_values', j, sorted(exp.items()), sorted(got.items(), key=repr),
                                  'content of the saved recording')
                     self._check_meta(fetched.get_metadata(), model['meta'], cls, j, out, float(len(ctx.journal)), wall)
+            if self.check_default_lookup:
+                self._check_default_lookup(beh, j, cls, out)
 
     def _bind_keys(self, newreal, newmodel, st):
         ins_model = [k for k in newmodel if k[0] == 'in']
@@ -860,6 +867,25 @@ class Driver(object):
             elif cands:
                 self.keymap[rk] = cands[0][2]
                 ins_model.remove(cands[0])
+
+    def _check_default_lookup(self, beh, j, cls, out):
+        """the default lookup (skip incomplete) returns exactly the stored recordings not flagged incomplete"""
+        from playback.studio.recordings_lookup import find_matching_recording_ids, RecordingLookupProperties
+        store = beh[j]['cas']['store']
+        exp = set()
+        for rid, srec in _items(store):
+            if not srec['meta']['incomplete'] and rid in self.real_ids and \
+                    self.inner.extract_recording_category(self.real_ids[rid]) == cls.__name__:
+                exp.add(self.real_ids[rid])
+        fetcher = self.fetch_factory(self.inner) if self.fetch_factory else self.inner
+        probe = TapeRecorder(fetcher)
+        try:
+            got = set(find_matching_recording_ids(probe, cls.__name__, RecordingLookupProperties(start_date=None)))
+        except Exception as ex:  # noqa
+            got = 'raised %r' % (ex,)
+        if got != exp:
+            self._mm(out, 'default_lookup', j, sorted(exp), got if isinstance(got, str) else sorted(got),
+                     'default lookup (skip incomplete) of category %s' % cls.__name__)
 
     def _check_meta(self, meta, model_meta, cls, idx, out, exp_duration=None, wall=None):
         got_cls = meta.get(TapeRecorder.OPERATION_CLASS)
@@ -941,9 +967,13 @@ class Driver(object):
         exp_cls = [None]
 
         def playback_function(recording):
-            op_cls = recording.get_metadata()[TapeRecorder.OPERATION_CLASS]
-            exp_cls[0] = op_cls
-            if op_cls.__name__.split('_')[0].endswith('c'):
+            # the class named by the recording's metadata, as bound to the recorder that is replaying (the scripted
+            # classes are created per recorder because the decorators are methods of the recorder instance)
+            meta_cls = recording.get_metadata()[TapeRecorder.OPERATION_CLASS]
+            exp_cls[0] = meta_cls
+            parts = meta_cls.__name__.split('_')
+            op_cls = self.pyclasses[(parts[0], parts[1] == 'x')]
+            if parts[0].endswith('c'):
                 return op_cls.execute()
             return op_cls().execute()
 
